@@ -217,7 +217,7 @@ def audit(audit_file, allow_axioms=(), timeout=600):
             "n_pins": n_pins, "theorems": names, "axioms": axioms, "bad_axioms": bad, "log": (p.stdout[-3000:] + p.stderr[-3000:])}
 
 
-HEADER = "Set Printing Width 10000000.\nSet Printing Depth 10000000.\n"
+HEADER = "Set Printing Width 10000000.\n"   # default Printing Depth: a huge depth makes the printer several times slower; results are strings (one token)
 
 
 def _run_shard(args):
